@@ -13,7 +13,14 @@ def main():
     if a.replay:
         return mod.replay(json.load(open(a.replay)))
     tier = a.tier if a.tier in ('quick', 'thorough') else 'quick'
-    mod.run(tier)
+    try:
+        mod.run(tier)
+    except SystemExit:
+        raise
+    except BaseException:
+        # the machinery itself failed: no verdict (exit 2), never a bare exit 1 without a VIOLATION line
+        traceback.print_exc()
+        sys.exit(2)
 
 
 if __name__ == '__main__':
